@@ -33,6 +33,10 @@ CONSTANTS
     MaxBDt,     \* batch: gap between the previous tmax and the first point 0..MaxBDt
     BatchGaps,  \* batch: time between consecutive points of a batch, and from the last point to tmax
     MaxBatch,   \* batch: 1..MaxBatch points
+    RestoreKeepsEpisodeStart,
+                \* TRUE: a restored alertState starts its episode at (last event time - last event
+                \* duration), i.e. where the ID left OK.  FALSE: at the last event's time (the code
+                \* before the second C01 fix) - durations restart from the last event after a restart.
     LeaveOKStartsDuration
                 \* TRUE: Impl as the code is since fix c143191 (addEvent records the start of
                 \* the episode when the level leaves OK).  FALSE: Impl as it was before (only
@@ -163,6 +167,22 @@ ImplEvent(c, s, lv, d1, d2) ==
                   flapping |-> flap2, first |-> Adv(first2, d2), last |-> Adv(last2, d2)],
          out |-> IF emit THEN <<lv, d2, dur>> ELSE None]
 
+(* Task restart while the daemon keeps running (restoreEventState): the new   *)
+(* alertState starts from what the topic remembers for the ID - the level   *)
+(* and time of the last delivered event - as addEvent(level) followed by     *)
+(* triggered(event time); the start of the episode is the event's time       *)
+(* minus its duration.  Modelled where the topic's memory is the true state: *)
+(* no flapping and recoveries delivered (then the last delivered level is    *)
+(* the current level and lastTriggered is the last event's time).            *)
+CanRestart(c) == ~c.flap /\ ~c.norec
+ImplRestore(c, s) ==
+    LET cur == ImplLevel(s)
+    IN  IF cur = 0 THEN ImplInit(c)
+        ELSE [hist |-> [i \in 1..c.H |-> IF i = 2 THEN cur ELSE 0], idx |-> 2, changed |-> TRUE,
+              expired |-> FALSE, flapping |-> FALSE,
+              first |-> IF RestoreKeepsEpisodeStart THEN s.first ELSE s.last,
+              last |-> s.last]
+
 (* A batch is a non-empty sequence of [c, r, off] (off = time - clock,      *)
 (* non-decreasing) and tmx = tmax - clock.  A stream point is the batch      *)
 (* <<p>> with tmx = p.off.                                                   *)
@@ -271,6 +291,13 @@ Batch(ps, dt, gaps, g) ==
            pts == [i \in 1..n |-> [c |-> ps[i].c, r |-> ps[i].r, off |-> off[i]]]
        IN  Step(pts, off[n] + g)
 
+(* The documented machine knows nothing of task restarts: Ref continues.      *)
+Restart ==
+    /\ CanRestart(cfg)
+    /\ im' = ImplRestore(cfg, im)
+    /\ out' = None /\ chk' = ChkInit
+    /\ UNCHANGED <<cfg, rf>>
+
 (* an empty batch is ignored entirely *)
 EmptyBatch == cfg.batch /\ UNCHANGED vars
 
@@ -280,6 +307,7 @@ Next ==
          \E ps \in [1..n -> Classes(cfg)], gaps \in [2..n -> BatchGaps], dt \in 0..MaxBDt, g \in BatchGaps :
             Batch(ps, dt, gaps, g)
     \/ EmptyBatch
+    \/ Restart
 
 Spec == Init /\ [][Next]_vars
 
